@@ -211,6 +211,9 @@ def run_case(case, ctx):
         return
     args, kw = ca
     seed = case["seed"]
+    # the global generators start from a state that is a function of the case (replayable)
+    random.seed(case.get("init", seed) + 17)
+    np.random.seed((case.get("init", seed) + 17) % (2**32))
     for s in case["pre"]:  # earlier calls to the same function must not matter either
         f(*copy.deepcopy(args), seed=s, **copy.deepcopy(kw))
     o1 = f(*copy.deepcopy(args), seed=seed, **copy.deepcopy(kw))
